@@ -21,14 +21,17 @@
     /// the members partition the input in order, each holds <= member size bytes, and every member is framed as
     /// "LZIP",1,dict byte | payload | crc32(member data) | data size | member size = 6+payload+20 (little endian).
     fn lzip_write_members(emit: usize, limited: bool) {
+        let n: usize = vk::any();
+        vk::assume(n >= 1 && n <= 9000);
+        lzip_write_members_n(emit, limited, n);
+    }
+    fn lzip_write_members_n(emit: usize, limited: bool, n: usize) {
         pl_reset(emit);
         let mut w = LZIPWriter::new(vk::Sink::<128>::new(), lzip_opts(100, if limited { Some(1) } else { None }));
         // options are normalised: LZMA-302eos parameters, dictionary clamped into the LZIP range, member >= dictionary
         assert!(w.options.lzma_options.lc == 3 && w.options.lzma_options.lp == 0 && w.options.lzma_options.pb == 2);
         assert!(w.options.lzma_options.dict_size == 4096);
         if limited { assert!(w.options.member_size.unwrap().get() == 4096); }
-        let n: usize = vk::any();
-        vk::assume(n >= 1 && n <= 9000);
         let r = w.write(&DATA[..n]);
         assert!(matches!(r, Ok(k) if k == n));
         let sink = match w.finish() { Ok(s) => s, Err(_) => { assert!(false); return; } };
@@ -57,8 +60,6 @@
             i += 1;
         }
         assert!(start == n);
-        crate::vcover!(m == 3);
-        crate::vcover!(m == 1);
     }
     #[kani::proof]
     #[kani::unwind(10)]
@@ -106,3 +107,20 @@
         crate::vcover!(m == 2 && a < 4096);
         crate::vcover!(m == 2 && a > 4096);
     }
+
+    // concrete histories (cheap: everything but the payload is executed concretely)
+    #[kani::proof]
+    #[kani::unwind(10)]
+    //@ERR
+    //@PAYLOAD_LZMA_W
+    fn c02_lzip_hist_n10() { lzip_write_members_n(2, true, 10); }
+    #[kani::proof]
+    #[kani::unwind(10)]
+    //@ERR
+    //@PAYLOAD_LZMA_W
+    fn c02_lzip_hist_n4101() { lzip_write_members_n(3, true, 4101); }
+    #[kani::proof]
+    #[kani::unwind(10)]
+    //@ERR
+    //@PAYLOAD_LZMA_W
+    fn c02_lzip_hist_n8193() { lzip_write_members_n(1, true, 8193); }
